@@ -1186,6 +1186,148 @@ fn check_root_case(c: &mut Case, seed: &[u8], s: &RootSpec) {
     }
     agg.flush(c);
     convert_root_pairs(c, seed, s);
+    editor_history_root(c, seed, s);
+}
+
+// ------------------------------------------------------------------ root: editing histories (after C15-r6m1)
+//
+// The count clause quantifies over every root the API can produce, not only over roots whose header was filled in by
+// hand: an editor session adds and removes elements of every list in any order (refused removals included) and saves;
+// the walker then counts the records in the file. Expectation = a plain tally of the accepted operations.
+fn editor_history_root(c: &mut Case, seed: &[u8], s: &RootSpec) {
+    let vi = (c.idx % VERS.len() as u64) as usize;
+    let vname = VERS[vi].1;
+    let Ok(model) = build_root(seed, s, vi, false) else { return };
+    let mut r = Rng::for_case(0xED17, c.idx, 15);
+    let (pm, pd, ps) = (model.materials.first().cloned(), model.doodad_defs.first().cloned(), model.doodad_sets.first().cloned());
+    let mut tally = [model.materials.len(), model.groups.len(), model.doodad_defs.len(), model.doodad_sets.len(), model.textures.len()];
+    let mut model = Some(model);
+    let nops = 1 + r.usize(12);
+    let mut hist: Vec<String> = Vec::new();
+    let res = lib(|| -> Result<Vec<u8>, String> {
+        let mut ed = wow_wmo::WmoEditor::new(model.take().unwrap());
+        for _ in 0..nops {
+            let k = r.usize(10);
+            // removal index: usually inside the list, sometimes one past the end (a refused operation between accepted ones)
+            let pick = |r: &mut Rng, n: usize| if n == 0 || r.chance(1, 6) { n } else { r.usize(n) };
+            match k {
+                0 => {
+                    if let Some(m) = &pm {
+                        ed.add_material(m.clone());
+                        tally[0] += 1;
+                        hist.push("add_material".into());
+                    }
+                }
+                1 => {
+                    let i = pick(&mut r, tally[0]);
+                    let ok = ed.remove_material(i).is_ok();
+                    if ok {
+                        tally[0] -= 1;
+                    }
+                    hist.push(format!("remove_material({i})={ok}"));
+                }
+                2 => {
+                    ed.create_group(format!("edited_{}", hist.len()));
+                    tally[1] += 1;
+                    hist.push("create_group".into());
+                }
+                3 => {
+                    let i = pick(&mut r, tally[1]);
+                    let ok = ed.remove_group(i).is_ok();
+                    if ok {
+                        tally[1] -= 1;
+                    }
+                    hist.push(format!("remove_group({i})={ok}"));
+                }
+                4 | 5 => {
+                    if let Some(d) = &pd {
+                        ed.add_doodad(d.clone());
+                        tally[2] += 1;
+                        hist.push("add_doodad".into());
+                    }
+                }
+                6 => {
+                    let i = pick(&mut r, tally[2]);
+                    let ok = ed.remove_doodad(i).is_ok();
+                    if ok {
+                        tally[2] -= 1;
+                    }
+                    hist.push(format!("remove_doodad({i})={ok}"));
+                }
+                7 => {
+                    if let Some(d) = &ps {
+                        ed.add_doodad_set(d.clone());
+                        tally[3] += 1;
+                        hist.push("add_doodad_set".into());
+                    }
+                }
+                8 => {
+                    let i = pick(&mut r, tally[3]);
+                    let ok = ed.remove_doodad_set(i).is_ok();
+                    if ok {
+                        tally[3] -= 1;
+                    }
+                    hist.push(format!("remove_doodad_set({i})={ok}"));
+                }
+                _ => {
+                    ed.add_texture(format!("edited\\tex_{}.blp", hist.len()));
+                    tally[4] += 1;
+                    hist.push("add_texture".into());
+                }
+            }
+        }
+        let lens = [ed.root().materials.len(), ed.root().groups.len(), ed.root().doodad_defs.len(), ed.root().doodad_sets.len(), ed.root().textures.len()];
+        if lens != tally {
+            return Err(format!("LISTS {lens:?}"));
+        }
+        let mut cur = Cursor::new(Vec::new());
+        ed.save_root(&mut cur).map_err(|e| format!("SAVE {e}"))?;
+        Ok(cur.into_inner())
+    });
+    c.count("editor_histories", 1);
+    c.count("editor_history_ops", hist.len() as u64);
+    let b = match res {
+        Err(p) => {
+            c.violate(format!("editor-history-panic|{}", p.sig()), format!("editor session panicked after {hist:?}: {}", p.msg), json!({"history": hist}));
+            return;
+        }
+        Ok(Err(e)) if e.starts_with("LISTS") => {
+            c.violate("editor-history|lists-ne-tally", format!("after {hist:?} the editor's lists have lengths {e} (materials, groups, doodad defs, doodad sets, textures), the accepted operations give {tally:?}"), json!({"history": hist}));
+            return;
+        }
+        Ok(Err(e)) => {
+            c.count("editor_history_save_err", 1);
+            c.note(json!({"editor_history_save_err": e, "history": hist}));
+            return;
+        }
+        Ok(Ok(b)) => b,
+    };
+    let (cks, ferr) = walk(&b, 0, b.len(), ROOT_MAGICS);
+    if ferr.is_some() || find(&cks, "MOHD").is_none() {
+        // framing of saved roots is judged in check_root_case; without it nothing can be counted here
+        c.count("editor_history_unwalkable", 1);
+        return;
+    }
+    let mohd = data(&b, &cks, "MOHD");
+    let modn = data(&b, &cks, "MODN");
+    let n_modn_strings = modn.split(|&x| x == 0).filter(|x| !x.is_empty()).count();
+    let fields: [(&str, usize, usize, usize, usize); 6] = [
+        ("n_materials", 0, data(&b, &cks, "MOMT").len(), 64, tally[0]),
+        ("n_groups", 4, data(&b, &cks, "MOGI").len(), 32, tally[1]),
+        ("n_doodad_names", 16, n_modn_strings, 1, tally[2]),
+        ("n_doodad_defs", 20, data(&b, &cks, "MODD").len(), 40, tally[2]),
+        ("n_doodad_sets", 24, data(&b, &cks, "MODS").len(), 32, tally[3]),
+        ("textures", usize::MAX, data(&b, &cks, "MOTX").split(|&x| x == 0).filter(|x| !x.is_empty()).count(), 1, tally[4]),
+    ];
+    for (field, off, bytes, rec, want) in fields {
+        c.count("editor_history_counts_checked", 1);
+        let in_file = bytes / rec;
+        if bytes % rec != 0 || in_file != want {
+            c.violate(format!("editor-history|list-ne-tally|{field}"), format!("after {hist:?} the saved root ({vname}) holds {bytes} bytes / {rec} of {field}, the accepted operations leave {want}"), json!({"history": hist, "version": vname}));
+        } else if off != usize::MAX && u32at(mohd, off) as usize != in_file {
+            c.violate(format!("header-count-ne-list|{field}|editor-history"), format!("after {hist:?} MOHD.{field} = {} but the saved root ({vname}) holds {in_file} records in the list's chunk", u32at(mohd, off)), json!({"history": hist, "version": vname, "header": u32at(mohd, off), "in_file": in_file}));
+        }
+    }
 }
 
 // ------------------------------------------------------------------ root: conversions over all version pairs
@@ -1204,6 +1346,16 @@ fn convert_root_pairs(c: &mut Case, seed: &[u8], s: &RootSpec) {
                 return;
             };
             exp.version = VERS[to].0;
+            // both versions on the same side of the extended-materials boundary carry the same material flag word (the
+            // write -> parse legs above show every bit coming back in every version): between such versions the
+            // shadow-batch bits are content representable in both and stay (after C15-r6m2)
+            if (from < MOP) == (to < MOP) && from != to {
+                for (k, x) in s.materials.iter().enumerate() {
+                    obj.materials[k].flags = WmoMaterialFlags::from_bits_truncate(x.flags);
+                    exp.materials[k].flags = WmoMaterialFlags::from_bits_truncate(x.flags);
+                }
+                c.count("root_conversions_with_raw_material_flags", 1);
+            }
             match lib(|| conv.convert_root(&mut obj, VERS[to].0)) {
                 Err(p) => {
                     c.violate(format!("convert-panic|root|{}|{pair}", p.sig()), format!("convert_root panicked: {}", p.msg), json!({}));
@@ -1652,6 +1804,37 @@ fn check_group_case(c: &mut Case, s: &GroupSpec) {
         };
         c.count("groups_written", 1);
         c.count(&format!("groups_written|{vname}"), 1);
+        // ---- the same group into sinks of other shapes (after C15-r3m3 / C15-r6m3): a stream that already holds data in
+        // front of the writer's position (root + groups back to back, a container header) and / or behind it (a buffer or
+        // file reused for a group that became shorter). What the writer wrote is the stretch from where it started to where
+        // it stopped: those bytes are the group, whatever stood in front stays, and a fresh write gives the same bytes.
+        {
+            let mut r = Rng::for_case(0x51AC, c.idx, vi as u64);
+            for shape in 0..3 {
+                let pre = if shape == 1 { 0 } else { 1 + r.usize(300) };
+                let post = if shape == 0 { 0 } else { 1 + r.usize(2 * b1.len() + 64) };
+                let mut buf = vec![0xA5u8; pre];
+                buf.extend(std::iter::repeat(0x5Au8).take(if shape == 0 { 0 } else { b1.len() + post }));
+                let res = lib(|| {
+                    let mut cur = Cursor::new(buf);
+                    cur.set_position(pre as u64);
+                    w.write_group(&mut cur, &model, ver).map(|_| (cur.position() as usize, cur.into_inner()))
+                });
+                let name = ["behind-a-prefix", "over-longer-content", "behind-a-prefix-over-longer-content"][shape];
+                c.count("group_sink_shapes_checked", 1);
+                match res {
+                    Err(p) => agg.check("group-write-panic", &p.sig(), name, vi, false, || (format!("write_group panicked on a stream {name}: {}", p.msg), json!({}))),
+                    Ok(Err(e)) => agg.check("write-depends-on-sink", "group", &format!("{name}-error"), vi, false, || (format!("write_group fails on a stream {name}: {e}"), json!({}))),
+                    Ok(Ok((end, out))) => {
+                        let ok = end == pre + b1.len() && out.len() >= end && out[pre..end] == b1[..] && out[..pre].iter().all(|&x| x == 0xA5);
+                        agg.check("write-depends-on-sink", "group", name, vi, ok, || {
+                            let d = if end <= out.len() && end >= pre { vh_common::first_diff(&out[pre..end], &b1) } else { 0 };
+                            (format!("write_group into a stream holding {pre} bytes in front of and {} bytes from the start position on: the writer stopped at {end} (a fresh write is {} bytes long, so {} expected), the bytes between start and stop {} the fresh write (first difference at {d}), prefix intact: {}", out.len().saturating_sub(pre).min(b1.len() + post), b1.len(), pre + b1.len(), if end <= out.len() && end >= pre && out[pre..end] == b1[..] { "equal" } else { "differ from" }, out[..pre.min(out.len())].iter().all(|&x| x == 0xA5)), json!({"prefix": pre, "old_content": b1.len() + post, "stopped_at": end, "fresh_len": b1.len()}))
+                        });
+                    }
+                }
+            }
+        }
 
         // ---- walker: MVER, MOGP and its back-patched size
         let top_ok = b1.len() >= 20 && &b1[0..4] == b"REVM" && u32at(&b1, 4) == 4 && u32at(&b1, 8) == 17 && &b1[12..16] == b"PGOM";
